@@ -10,6 +10,11 @@
 (declare-fun trig (Int) Bool)
 (assert (forall ((j Int)) (! (trig j) :pattern ((trig j)))))
 
+; ---- strings: NFC normalization is an uninterpreted idempotent function ------------------------
+(declare-fun nfc (String) String)
+(assert (forall ((s String)) (! (= (nfc (nfc s)) (nfc s)) :pattern ((nfc s)))))
+(assert (= (nfc "") ""))
+
 ; ---- shape predicates -------------------------------------------------------
 (define-fun is_marked ((v cty.Value)) Bool ((_ is box<cty.marker>) (cty.Value.v v)))
 (define-fun inner_v ((v cty.Value)) Any
@@ -136,6 +141,9 @@
         (= a b)))
   :pattern ((ty_eqF (FS f) a b)))))
 ; representation invariant of a type (what the constructors establish)
+; (below, after the definition: a flat elimination form of the tuple case, a direct consequence of the
+; definition, stated separately because the solvers instantiate a quantifier nested under an
+; equivalence unreliably)
 (declare-fun wf_tyF (Fuel cty.Type) Bool)
 (define-fun wf_ty ((t cty.Type)) Bool (wf_tyF (FS (FS FZ)) t))
 (assert (forall ((f Fuel) (t cty.Type)) (! (= (wf_tyF (FS f) t) (wf_tyF f t)) :pattern ((wf_tyF (FS f) t)))))
@@ -144,23 +152,19 @@
        (MapC<String~Unit>.ok (select F.MapC<String~Unit> (obj_opt_ptr t)))
        (not (= (obj_atys_ptr t) 0))
        (forall ((k String)) (! (=> (select (obj_opt t) k) (select (obj_dom t) k)) :pattern ((select (obj_opt t) k))))
-       (forall ((k String)) (! (=> (select (obj_dom t) k) (wf_tyF f (obj_aty t k))) :pattern ((select (obj_dom t) k))))))
+       (forall ((k String)) (! (=> (select (obj_dom t) k) (and (= (nfc k) k) (wf_tyF f (obj_aty t k)))) :pattern ((select (obj_dom t) k))))))
 (define-fun wf_ty_tuple ((f Fuel) (t cty.Type)) Bool
   (and (slice.ok (tuple_sl t))
        (forall ((j Int)) (! (=> (and (trig j) (<= (tuple_off t) j) (< j (+ (tuple_off t) (tuple_len t)))) (wf_tyF f (select (tuple_arr t) j)))
                            :pattern ((select (tuple_arr t) j))))))
 (assert (forall ((f Fuel) (t cty.Type)) (! (= (wf_tyF (FS f) t)
-    (or (is_prim_ty t) (is_dyn_ty t)
+    (or (and (is_prim_ty t) (or (= (prim_kind t) 66) (= (prim_kind t) 78) (= (prim_kind t) 83)))
+        (is_dyn_ty t)
         (and (is_coll_ty t) (wf_tyF f (elem_ty t)))
         (and (is_tuple_ty t) (wf_ty_tuple f t))
         (and (is_obj_ty t) (wf_ty_obj f t))
         (and (is_capsule_ty t) (not (= (unbox<*cty.capsuleType> (ti t)) 0)))))
   :pattern ((wf_tyF (FS f) t)))))
-; ---- strings: NFC normalization is an uninterpreted idempotent function ------------------------
-(declare-fun nfc (String) String)
-(assert (forall ((s String)) (! (= (nfc (nfc s)) (nfc s)) :pattern ((nfc s)))))
-(assert (= (nfc "") ""))
-
 ; Conformance of a type to a type constraint (C07): equal, disregarding optional-attribute
 ; annotations, after replacing each dynamic placeholder of the constraint by the corresponding part.
 (declare-fun conformsF (Fuel cty.Type cty.Type) Bool)
@@ -192,8 +196,7 @@
 (assert (forall ((f Fuel) (t cty.Type)) (! (= (has_dynF (FS f) t)
     (or (is_dyn_ty t)
         (and (is_coll_ty t) (has_dynF f (elem_ty t)))
-        (and (is_tuple_ty t) (exists ((j Int)) (! (and (trig j) (<= (tuple_off t) j) (< j (+ (tuple_off t) (tuple_len t))) (has_dynF f (select (tuple_arr t) j)))
-                                                 :pattern ((select (tuple_arr t) j)))))
+        (and (is_tuple_ty t) (exists ((j Int)) (! (and (trig j) (<= (tuple_off t) j) (< j (+ (tuple_off t) (tuple_len t))) (has_dynF f (select (tuple_arr t) j))) :pattern ((select (tuple_arr t) j)))))
         (and (is_obj_ty t) (exists ((k String)) (! (and (select (obj_dom t) k) (has_dynF f (obj_aty t k))) :pattern ((select (obj_dom t) k)))))))
   :pattern ((has_dynF (FS f) t)))))
 
@@ -290,8 +293,7 @@
 (assert (forall ((f Fuel) (t cty.Type)) (! (= (has_optF (FS f) t) (has_optF f t)) :pattern ((has_optF (FS f) t)))))
 (assert (forall ((f Fuel) (t cty.Type)) (! (= (has_optF (FS f) t)
     (or (and (is_coll_ty t) (has_optF f (elem_ty t)))
-        (and (is_tuple_ty t) (exists ((j Int)) (! (and (trig j) (<= (tuple_off t) j) (< j (+ (tuple_off t) (tuple_len t))) (has_optF f (select (tuple_arr t) j)))
-                                                 :pattern ((select (tuple_arr t) j)))))
+        (and (is_tuple_ty t) (exists ((j Int)) (! (and (trig j) (<= (tuple_off t) j) (< j (+ (tuple_off t) (tuple_len t))) (has_optF f (select (tuple_arr t) j))) :pattern ((select (tuple_arr t) j)))))
         (and (is_obj_ty t) (or (not (= (obj_opt t) empty<String>))
                                (exists ((k String)) (! (and (select (obj_dom t) k) (has_optF f (obj_aty t k))) :pattern ((select (obj_dom t) k))))))))
   :pattern ((has_optF (FS f) t)))))
@@ -306,3 +308,42 @@
       (exists ((j Int)) (! (and (trig j) (<= 0 j) (< j n)
          (let ((m (select (ite (< (Slice.ptr s) 0) (select ha (Slice.ptr s)) (select F.Arr<Int> (Slice.ptr s))) (+ (Slice.off s) j))))
            (= (MapC<Any~Unit>.dom (ite (< m 0) (select hm m) (select F.MapC<Any~Unit> m))) d))) :pattern ((trig j))))))
+
+; ---- maps of values (map[string]cty.Value in heap MapC<String~cty.Value>) -----------------------
+(define-fun vmap ((m Int)) MapC<String~cty.Value> (select F.MapC<String~cty.Value> m))
+(define-fun vmap_dom ((m Int)) (Array String Bool) (MapC<String~cty.Value>.dom (vmap m)))
+(define-fun vmap_at ((m Int) (k String)) cty.Value (select (MapC<String~cty.Value>.val (vmap m)) k))
+(define-fun vmap_typed ((m Int)) Bool
+  (and (MapC<String~cty.Value>.ok (vmap m))
+       (forall ((k String)) (! (=> (select (vmap_dom m) k) (and (wf_marks (vmap_at m k)) (wf_ty (vty (vmap_at m k))))) :pattern ((select (vmap_dom m) k))))))
+(define-fun vmap_consistent ((m Int)) Bool
+  (forall ((a String) (b String)) (! (=> (and (select (vmap_dom m) a) (select (vmap_dom m) b) (not (is_dyn_ty (vty (vmap_at m a)))) (not (is_dyn_ty (vty (vmap_at m b)))))
+                                        (ty_eq (vty (vmap_at m a)) (vty (vmap_at m b))))
+     :pattern ((select (vmap_dom m) a) (select (vmap_dom m) b)))))
+(define-fun vmap_all_dyn ((m Int)) Bool
+  (forall ((k String)) (! (=> (select (vmap_dom m) k) (is_dyn_ty (vty (vmap_at m k)))) :pattern ((select (vmap_dom m) k)))))
+(define-fun vmap_some_ty ((m Int) (t cty.Type)) Bool
+  (exists ((k String)) (! (and (select (vmap_dom m) k) (= t (vty (vmap_at m k)))) :pattern ((select (vmap_dom m) k)))))
+; type constructors as terms
+(define-fun ty_list ((e cty.Type)) cty.Type (mk.cty.Type (box<cty.typeList> (mk.cty.typeList mk.cty.typeImplSigil e))))
+(define-fun ty_map ((e cty.Type)) cty.Type (mk.cty.Type (box<cty.typeMap> (mk.cty.typeMap mk.cty.typeImplSigil e))))
+(define-fun ty_set ((e cty.Type)) cty.Type (mk.cty.Type (box<cty.typeSet> (mk.cty.typeSet mk.cty.typeImplSigil e))))
+; maps of types (map[string]cty.Type)
+(define-fun tmap ((m Int)) MapC<String~cty.Type> (select F.MapC<String~cty.Type> m))
+(define-fun tmap_dom ((m Int)) (Array String Bool) (MapC<String~cty.Type>.dom (tmap m)))
+(define-fun tmap_at ((m Int) (k String)) cty.Type (select (MapC<String~cty.Type>.val (tmap m)) k))
+(define-fun str_at ((s Slice) (j Int)) String (select (select F.Arr<String> (Slice.ptr s)) (+ (Slice.off s) j)))
+; some name in opt[0..n) is, after normalization, not the normalization of a key of the type map
+(define-fun opt_undeclared ((attrTypes Int) (opt Slice) (n Int)) Bool
+  (exists ((j Int)) (! (and (trig j) (<= 0 j) (< j n)
+      (not (exists ((k0 String)) (! (and (select (tmap_dom attrTypes) k0) (= (nfc k0) (nfc (str_at opt j)))) :pattern ((select (tmap_dom attrTypes) k0))))))
+    :pattern ((trig j)))))
+
+; Meta-lemma M3 (assumed, not machine-checked; by induction on the constraint): two types that
+; conform to the same placeholder-free constraint and carry no optional-attribute annotations are equal.
+(assert (forall ((a cty.Type) (b cty.Type) (w cty.Type))
+  (! (=> (and (conforms a w) (conforms b w) (not (has_dyn w)) (not (has_opt a)) (not (has_opt b))) (ty_eq a b))
+     :pattern ((conforms a w) (conforms b w)))))
+; decoded value: what every successful decoder result satisfies with respect to the requested type
+(define-fun decoded_ok ((v cty.Value) (ty cty.Type)) Bool
+  (and (conforms (vty v) ty) (wf_ty (vty v)) (wf_marks v) (not (has_opt (vty v)))))
